@@ -90,10 +90,12 @@ def classify(prop_name, desc, line, built, target):
 def prove(built, fn, verbose=False, trace=False, keep=False, case=None):
     """run one proof; returns a result dict"""
     cfg = built.cfg
+    if '@' in fn:
+        fn, case = fn.split('@', 1)
     if case is None and built.model.specs.get(fn) is not None and built.model.specs[fn].cases:
         return prove_cases(built, fn, verbose, trace, keep)
     sp = built.model.specs.get(fn)
-    res = {'fn': fn, 'cfg': cfg['name'], 'status': None, 'obligations': 0, 'discharged': 0, 'failed': [],
+    res = {'fn': fn + ('@' + case if case else ''), 'cfg': cfg['name'], 'status': None, 'obligations': 0, 'discharged': 0, 'failed': [],
            'canaries': {}, 'time_s': 0.0, 'backend': 'cbmc 6.11.0 / MiniSat 2.2.1', 'reason': None, 'tags': {}}
     if sp is None or sp.harness is None:
         res['status'] = 'undecided'; res['reason'] = 'no contract/harness for %s in configuration %s' % (fn, cfg['name'])
@@ -321,6 +323,9 @@ def main():
                 for fut in concurrent.futures.as_completed(futs):
                     r = fut.result()
                     print('%-10s %-48s %5d/%-5d %6.1fs %s' % (r['status'], r['fn'], r['discharged'], r['obligations'], r['time_s'], r['reason'] or ''))
+                    if os.environ.get('VERIF_TIMINGS'):
+                        with open(os.environ['VERIF_TIMINGS'], 'a') as tf:
+                            tf.write(json.dumps({'cfg': r['cfg'], 'fn': r['fn'], 'status': r['status'], 'wall_s': r['time_s'], 'cpu_s': r.get('solver_s'), 'obligations': r['obligations']}) + '\n')
                     for f in r['failed'][:6]:
                         print('     FAILED %s line %s %s | %s | %s' % (f['property'], f['line'], f['tags'], f['description'][:110], f['clause'] or ''))
                     if a.trace and r.get('trace'):
